@@ -173,7 +173,19 @@ static inline void schema_elements(const Node& n, bool is_root, std::vector<TV>&
     if (n.leaf && n.logical) {
         // LogicalType is a union: exactly one field, whose id says which type; converted_type (6) is the legacy twin, optional
         static const int CONVERTED[16] = {-1, 0, -1, -1, 4, 5, 6, -1, -1, -1, -1, -1, 19, 20, -1, -1};
-        if (n.logical == 1 || (CONVERTED[n.logical] >= 0 && r.below(2))) e.add(6, TV::I32(CONVERTED[n.logical]));
+        int conv = CONVERTED[n.logical];
+        if (n.logical == 7 && n.lp1 == 1 && n.lp2 <= 2) conv = n.lp2 == 1 ? 7 : 8;                 // TIME_MILLIS / TIME_MICROS (UTC-adjusted by definition)
+        if (n.logical == 8 && n.lp1 == 1 && n.lp2 <= 2) conv = n.lp2 == 1 ? 9 : 10;                // TIMESTAMP_MILLIS / TIMESTAMP_MICROS
+        if (n.logical == 10) { int k = n.lp1 == 8 ? 0 : n.lp1 == 16 ? 1 : n.lp1 == 32 ? 2 : 3; conv = (n.lp2 ? 15 : 11) + k; }   // INT_8.. / UINT_8..
+        if (n.converted_only && conv >= 0) {
+            e.add(6, TV::I32(conv));
+            if (n.logical == 5) { e.add(7, TV::I32(n.lp1)); e.add(8, TV::I32(n.lp2)); }
+            if (lay.junk_fields && r.below(3) == 0) add_junk(e, r);
+            out.push_back(e);
+            for (auto& k : n.kids) schema_elements(k, false, out, lay, r);
+            return;
+        }
+        if (n.logical == 1 || (conv >= 0 && r.below(2))) e.add(6, TV::I32(conv));
         if (n.logical == 5) { e.add(7, TV::I32(n.lp1)); e.add(8, TV::I32(n.lp2)); }
         TV body = TV::Struct();
         if (n.logical == 5) { body.add(1, TV::I32(n.lp1)); body.add(2, TV::I32(n.lp2)); }
